@@ -10,30 +10,31 @@ import (
 	"io"
 	"os"
 	"strings"
+	"time"
 
 	"github.com/irai/packet/fastlog"
 
 	"verif/harness/c01"
 	"verif/harness/c03"
+	"verif/harness/c03dhcp"
+	"verif/harness/c03dns"
 	"verif/harness/c04"
 	"verif/harness/c07"
 	"verif/harness/c08"
-	"verif/harness/c09"
-	"verif/harness/c10"
 	"verif/harness/c08dhcp"
 	"verif/harness/c08dns"
 	"verif/harness/c08hnd"
 	"verif/harness/c08ndp"
-	"verif/harness/c03dhcp"
-	"verif/harness/c03dns"
+	"verif/harness/c09"
+	"verif/harness/c10"
 	"verif/harness/c11"
 	"verif/harness/c13"
-	"verif/harness/c18"
 	"verif/harness/c14"
 	"verif/harness/c15"
+	"verif/harness/c17"
+	"verif/harness/c18"
 	"verif/harness/c19"
 	"verif/harness/c20"
-	"verif/harness/c17"
 	"verif/harness/core"
 	"verif/harness/sched"
 )
@@ -58,28 +59,28 @@ var runners = map[string]core.Runner{
 		}
 		return c03dns.Runner.Eval(c, l)
 	}},
-	"C04": c04.Runner,
-	"C05": c04.Runner,
-	"C06": c04.Runner,
-	"C07": withStage(c07.Runner, c08dhcp.FrameStage),
-	"C08": c08.Runner,
-	"C09": c09.Runner,
-	"C10": c10.Runner,
-	"C11": c11.Runner,
-	"C12": withStage(c11.Runner, c08dhcp.FrameStage),
-	"C13": c13.Runner,
-	"C18": c18.Runner,
+	"C04":     c04.Runner,
+	"C05":     c04.Runner,
+	"C06":     c04.Runner,
+	"C07":     withStage(c07.Runner, c08dhcp.FrameStage),
+	"C08":     c08.Runner,
+	"C09":     c09.Runner,
+	"C10":     c10.Runner,
+	"C11":     c11.Runner,
+	"C12":     withStage(c11.Runner, c08dhcp.FrameStage),
+	"C13":     c13.Runner,
+	"C18":     c18.Runner,
 	"C03Dhcp": c03dhcp.Runner,
 	"C03dns":  c03dns.Runner,
-	"C14": c14.Runner,
-	"C15": c15.Runner,
-	"C19": c19.Runner,
-	"C20": c20.Runner,
-	"C08ndp": c08ndp.Runner,
-	"C17": c17.Runner,
-	"C08dns": c08dns.Runner,
+	"C14":     c14.Runner,
+	"C15":     c15.Runner,
+	"C19":     c19.Runner,
+	"C20":     c20.Runner,
+	"C08ndp":  c08ndp.Runner,
+	"C17":     c17.Runner,
+	"C08dns":  c08dns.Runner,
 	"C08dhcp": c08dhcp.Runner,
-	"C08hnd": c08hnd.Runner,
+	"C08hnd":  c08hnd.Runner,
 }
 
 // withStage: the property's own run followed by a stage of another runner (its lines are evaluated by that runner).
@@ -126,6 +127,12 @@ func main() {
 			c.Known[k] = true
 		}
 	}
+	// stall watchdog: a library call that never returns ends the run with what was found so far (core.Watch)
+	limit := 180 * time.Second
+	if *tier == "thorough" {
+		limit = 1200 * time.Second
+	}
+	c.Watch(*out, limit, map[string]bool{"C01": true, "C08": true, "C09": true, "C19": true}[*prop])
 	if *replay != "" {
 		c.Verbose = true
 		fh, err := os.Open(*replay)
